@@ -242,6 +242,7 @@ func runC05(c *Check) {
 	c.MinInstances("C05-R3", 5)
 	ruleRestartReconciliation(c, p, "C05-R2")
 	ruleReexecutionAccepted(c)
+	rulePersistedStateLoadable(c, p, "C05-R5")
 }
 
 // ruleReexecutionAccepted (C05-R4): the apply step executes a block before it records the new
@@ -590,7 +591,10 @@ func rulePersistedStateLoadable(c *Check, p *Prog, rule string) {
 	trace = func(v ssa.Value, fn *ssa.Function, depth int) (string, bool) {
 		t := TermOf(v, &Ctx{Fn: fn})
 		if p.DeepContains(t, isNext, 3) {
-			return "the state of an applied block (NextState)", true
+			if haveT && threshold > 0 {
+				return fmt.Sprintf("the state of an applied block (NextState), whose LastBlockHeight is the block's height — InitialHeight for the first block — but the loader accepts only LastBlockHeight >= InitialHeight%+d: a node stopped while its state is the first block's cannot be started again", threshold), false
+			}
+			return "the state of an applied block (NextState; LastBlockHeight = the block's height >= InitialHeight)", true
 		}
 		if lv := structLitField(v, "LastBlockHeight"); lv != nil {
 			lt := TermOf(lv, &Ctx{Fn: fn})
